@@ -17,7 +17,7 @@ C15-bytelen-fastpath C15 quick
 C18-buffer-4096 C18 quick
 C13-truncate-before-validate C13 thorough
 C06-scrape-u8-wrap C06 thorough
-C07-scrape-dedup C07 thorough
+C07-scrape-dedup C07 quick
 C09-offer-deadline C09 quick
 C11-reload-lines C11 quick
 C20-skip-inactive-family C20 quick
